@@ -96,7 +96,7 @@ reg('C09', 'exploration',
     'test/data/environment/v4); stub tool chain.',
     'DESIGN.md §2 C09')
 reg('C15', 'exploration',
-    'whole-tree snapshot diff around real `make install` / `make uninstall` (real gcc, doppel, '
+    'whole-tree snapshot diff around real `make|ninja install` / `uninstall` (real gcc, doppel, '
     'patchelf traced through wrappers) against an independent placement model; readelf on '
     'installed ELF files',
     'Generated projects with every installable kind, random directory= arguments, prefixes with '
@@ -104,7 +104,8 @@ reg('C15', 'exploration',
     '(bystander files planted), RUNPATH must name installed library dirs only, installed programs '
     'run with the build tree moved away, uninstall removes exactly what install created.',
     'Trusted: the placement model in vf/gen/c15gen.py (from docs and the project integration '
-    'tests); readelf; only the make back end.',
+    'tests); readelf; Make, and for every third project (all in thorough) the Ninja back end '
+    'through vf/ref/refninja.py (configure-time DESTDIR only).',
     'DESIGN.md §2 C15')
 reg('C20', 'exploration',
     'reference MS C-runtime argv parser as oracle over a completely enumerated small-alphabet '
@@ -171,7 +172,7 @@ reg('C10', 'fault_enumeration',
     'DESIGN.md §2 C10')
 
 reg('C14', 'exploration',
-    'real gcc/clang + make builds of generated library DAGs; exit status and stdout of the built '
+    'real gcc/clang builds (GNU make; reference Ninja evaluator) of generated library DAGs; exit status and stdout of the built '
     'executables (in place, from elsewhere, after renaming the build dir), readelf/nm on every '
     'dynamic output, recorded link command lines',
     'Random and directed DAGs of static/shared/dual/whole-archive libraries and executables in '
@@ -179,8 +180,9 @@ reg('C14', 'exploration',
     'must print the value the generator model computes, RUNPATH entries must be $ORIGIN-relative '
     'and resolve every needed project library, forwarded link options / whole-archive members / '
     'system libraries must be present, and everything must still run after the build dir moved.',
-    'Trusted: gcc 12, clang 14, GNU ld (--as-needed default), glibc ld.so, readelf, nm; only the '
-    'make back end.',
+    'Trusted: gcc 12, clang 14, GNU ld (--as-needed default), glibc ld.so, readelf, nm; Make for '
+    'every case, the Ninja back end (vf/ref/refninja.py running the real tools) for one library '
+    'mode per DAG in quick and every mode in thorough.',
     'DESIGN.md §2 C14')
 reg('C16', 'exploration',
     'behavioural probes of really compiled programs (printed predefined macros, readelf sections / '
